@@ -5,27 +5,28 @@ from vlib import Emitter
 from checks.box import msg_coq
 
 
-def thread_coq(em, th):
-    if th["kind"] == "recv":
-        return "RCheck (%s)" % msg_coq(em, th["msg"])
-    return "SBegin %s" % em.bytes(th["topic"])
+def call_coq(em, c):
+    if c["kind"] == "recv":
+        return "CRecv (%s)" % msg_coq(em, c["msg"])
+    return "CSend %s" % em.bytes(c["topic"])
 
 
 def scen_to_coq(em, sc):
-    ths = Emitter.lst(thread_coq(em, t) for t in sc["threads"])
-    gs = Emitter.lst("mkCG %d %s %s" % (g["t"], Emitter.lst(msg_coq(em, m) for m in g["handoffs"]),
-                                        Emitter.lst(em.bytes(t) for t in g["forwards"])) for g in sc["grants"] if not g["noop"])
+    ths = Emitter.lst(Emitter.lst(call_coq(em, c) for c in t["calls"]) for t in sc["threads"])
+    gs = Emitter.lst("mkSG %d %s %s %s" % (g["t"], Emitter.lst(msg_coq(em, m) for m in g["handoffs"]),
+                                           Emitter.lst(em.bytes(t) for t in g["forwards"]), "true" if g["done"] else "false")
+                     for g in sc["grants"] if not g["noop"])
     pend = Emitter.lst("(%s, %s)" % (em.bytes(p["topic"]), Emitter.lst(msg_coq(em, m) for m in p["msgs"])) for p in sc["fin_pending"])
     infl = Emitter.lst("(%s, %s)" % (src, Emitter.lst(em.bytes(t) for t in ts)) for src, ts in sorted(sc["fin_inflight"].items()))
     started = Emitter.lst(em.bytes(t) for t in sc["fin_started"])
-    return "mkCScen %d %d %s\n %s\n %s %s %s" % (sc["limit"], sc["max_topics"], ths, gs, pend, infl, started)
+    return "mkSScen %d %d %s\n %s\n %s %s %s" % (sc["limit"], sc["max_topics"], ths, gs, pend, infl, started)
 
 
 def correspondence(chk, tag, scen):
     em = Emitter()
     items = [scen_to_coq(em, sc) for sc in scen]
-    body = "\n".join(em.defs) + "\nDefinition cases : list cscen :=\n [" + ";\n  ".join(items) + "].\nDefinition M_def := cmismatches cases.\n"
-    val, out, dt = vlib.coq_eval(tag, ["TSS.Base.Base", "TSS.Box.Model", "TSS.Box.Conc", "TSS.Corr.BoxConcCorr"], body)
+    body = "\n".join(em.defs) + "\nDefinition cases : list sscen :=\n [" + ";\n  ".join(items) + "].\nDefinition M_def := smismatches cases.\n"
+    val, out, dt = vlib.coq_eval(tag, ["TSS.Base.Base", "TSS.Box.Model", "TSS.Box.Sync", "TSS.Corr.BoxSyncCorr"], body)
     chk.notes.append("%s: %d schedules evaluated in Coq in %.1fs" % (tag, len(items), dt))
     pairs = vlib.parse_pairs(val) if val is not None else None
     if pairs is None:
@@ -34,43 +35,54 @@ def correspondence(chk, tag, scen):
 
 
 def classify(sc):
-    """C14 evaluated directly on the implementation trace.  Returns a list of (signature, description)."""
+    """C14 evaluated directly on the implementation trace.  Returns a list of (signature, description).
+    Arrival order of the messages of a sender = order of the HandleMessage calls of the goroutine that delivers them
+    (the harness gives every sender one delivering goroutine, as the transport does)."""
     res = []
     if sc.get("panic"):
         res.append(("panic", "panic or stuck: " + sc["panic"]))
-    recv = [(t["msg"]["src"], t["msg"]["topic"], t["msg"]["data"]) for t in sc["threads"] if t["kind"] == "recv"]
-    # arrival order = order in which the receive threads made their first step
-    first = {}
-    for i, g in enumerate(sc["grants"]):
-        if not g["noop"] and g["t"] not in first:
-            first[g["t"]] = i
     arrival = collections.defaultdict(list)
+    recv = []
+    owner = {}
     for ti, t in enumerate(sc["threads"]):
-        if t["kind"] == "recv" and ti in first:
-            arrival[(t["msg"]["topic"], t["msg"]["src"])].append((first[ti], t["msg"]["data"]))
+        for c in t["calls"]:
+            if c["kind"] == "recv":
+                m = c["msg"]
+                recv.append((m["src"], m["topic"], m["data"]))
+                arrival[(m["topic"], m["src"])].append(m["data"])
+                owner.setdefault(m["src"], set()).add(ti)
     handed = collections.Counter()
     order = collections.defaultdict(list)
     for g in sc["grants"]:
         for m in g["handoffs"]:
             handed[(m["src"], m["topic"], m["data"])] += 1
             order[(m["topic"], m["src"])].append(m["data"])
-    buffered = set((m["src"], m["topic"], m["data"]) for p in sc["fin_pending"] for m in p["msgs"])
+    buffered = collections.defaultdict(list)
+    for p in sc["fin_pending"]:
+        for m in p["msgs"]:
+            buffered[(m["topic"], m["src"])].append(m["data"])
     over_limit = sc["max_topics"] < 10
     for m in recv:
-        if handed[m] > 1:
-            res.append(("twice", "message handed over twice"))
+        key = (m[1], m[0])
+        if handed[m] + buffered[key].count(m[2]) > 1:
+            res.append(("twice", "message handed over (or buffered) more than once"))
         if handed[m] == 0 and not over_limit:
-            if m in buffered:
+            if m[2] in buffered[key]:
                 if m[1] in sc["fin_started"]:
-                    res.append(("late", "message buffered after its topic started: it waits for a later Send on the topic (for ever if there is none)"))
+                    res.append(("late", "message still buffered although its topic has started and every call has returned: it waits for a "
+                                        "later Send on the topic (for ever if there is none)"))
             else:
-                res.append(("lost", "message neither handed over nor buffered: stored into a buffer that Send had already detached"))
-    for key, ds in order.items():
-        arr = [d for _, d in sorted(arrival[key])]
-        pos = {d: i for i, d in enumerate(arr)}
-        idx = [pos[d] for d in ds if d in pos]
-        if idx != sorted(idx):
-            res.append(("order", "messages of one sender handed over out of arrival order: one arriving during the drain overtakes buffered ones"))
+                res.append(("lost", "message neither handed over nor buffered"))
+    for m in handed:
+        if m not in recv:
+            res.append(("forged", "a message was handed over that was never received"))
+    for key, arr in arrival.items():
+        if len(owner[key[1]]) != 1:
+            continue
+        got = order[key] + buffered[key]
+        want = [d for d in arr if d in got] if over_limit else arr
+        if got != want and sorted(got) == sorted(want):
+            res.append(("order", "messages of one sender handed over out of their arrival order"))
     return res
 
 
@@ -101,13 +113,13 @@ def run_conc(chk, tier, seed):
     if mism and not chk.violations:
         sc, j = mism[0]
         chk.violation("corr_conc_%d.json" % sc["id"],
-                      dict(what="correspondence TSS.Corr.BoxConcCorr.check_cscen fails at grant %d: the lock-granular model of msg.Box "
+                      dict(what="correspondence TSS.Corr.BoxSyncCorr.check_sscen fails at grant %d: the lock-granular model of msg.Box "
                                 "no longer matches msgbox.go" % j, scenario=sc), no_input=True)
     chk.cov["schedules"] = len(scen)
     chk.cov["schedules_distinct"] = len(set(vlib.canon_hash([sc["threads"], [g["t"] for g in sc["grants"] if not g["noop"]]]) for sc in scen))
     chk.cov["schedule_families"] = dict(collections.Counter(sc["family"] for sc in scen))
     chk.cov["finding_classes_seen"] = dict(sig_seen)
-    chk.cov["exhaustive_families"] = "every schedule of 9 grants over the thread sets recv|send and recv|recv" + \
-        (" and recv|recv|send, recv|send|send" if tier == "thorough" else "")
+    chk.cov["exhaustive_families"] = "every schedule of 10 grants over reader[m1,m2]|send and of 6 grants over recv|recv|send (the rest round robin)" + \
+        ("; 13 grants over reader[m1,m2,m3]|send.send, 9 over reader2|reader1|send and reader2|send|send" if tier == "thorough" else "")
     return ["concurrent half: threads are interleaved at the lock boundaries of msgbox.go (yield hooks, build tag verif); preemption "
             "inside a critical section cannot change the outcome because every shared access of the Box is under a lock (C20)"]
